@@ -79,9 +79,15 @@ from sys import maxsize
 class FakeSec(nixio.Section):
     def __init__(self, ident): self.ident = ident; self.kids = []
     sections = property(lambda self: list(self.kids))
+    name = property(lambda self: "n%%d" %% (self.ident %% 2))       # namesakes in different parents
+    id = property(lambda self: "id-%%d" %% self.ident)
+    type = property(lambda self: "t")
 class FakeSrc(nixio.source.Source):
     def __init__(self, ident): self.ident = ident; self.kids = []
     sources = property(lambda self: list(self.kids))
+    name = property(lambda self: "n%%d" %% (self.ident %% 2))
+    id = property(lambda self: "id-%%d" %% self.ident)
+    type = property(lambda self: "t")
 class Top:
     def __init__(self, kids): self.kids = kids
     sections = property(lambda self: list(self.kids))
